@@ -27,6 +27,8 @@ func runC09(c *Ctx, r *Report) {
 	r.Doc("R-C09.3", "unbounded fetch queues every predecessor and reference of every fetched entry")
 	r.Doc("R-C09.4", "unbounded fetch admits every newly fetched entry")
 	r.Doc("R-C09.5", "no trimming without a tested non-negative limit")
+	r.Doc("R-C09.6", "loaders and constructors carry the codec, the limit, the exclusions and the timeout over to the fetcher, and the codec, access controller and comparator over to the rebuilt log")
+	optionForwarding(c, r, "R-C09.6", append(append(loaderFetchSpecs(), constructorLoaderSpecs()...), constructorLogSpecs()...))
 
 	loadOfField := func(v ssa.Value, owner *types.Named, field string) bool {
 		for x := range backSlice(v, nil) {
